@@ -10,27 +10,27 @@ package dilithiumjs
 //@ pred notHex(v) := len(v) % 2 != 0 || exists i_ :: 0 <= i_ && i_ < len(v) && !spec.ishexdigit(v[i_])
 
 //@ func clearPrefix0x
-//@   names data:string |  | 
+//@   names data:string |  |  | 
 //@   props C16
 //@   ensures has0x(data) ==> len(result) == len(data) - 2 && result[0:len(result)] == data[2:len(data)]
 //@   ensures !has0x(data) ==> len(result) == len(data) && result[0:len(result)] == data[0:len(data)]
 
 //@ func IsValidDilithiumAddress
-//@   names address:string |  | binAddr:[]byte err:error sizedBinAddr:[20]uint8
+//@   names address:string |  | binAddr:[]byte err:error sizedBinAddr:[20]uint8 | 
 //@   props C16
 //@   ensures[C16] !has0x(address) && hexOK(address, 40) ==> (result <==> 16*spec.hexval(address[0]) + spec.hexval(address[1]) == 16)
 //@   ensures[C16] has0x(address) && hexOK(address[2:], 40) ==> (result <==> 16*spec.hexval(address[2]) + spec.hexval(address[3]) == 16)
 //@   ensures[C16] (!has0x(address) && notHex(address)) || (has0x(address) && notHex(address[2:])) ==> !result
 
 //@ func GetDilithiumAddressFromPK
-//@   names pk:string |  | binPK:[]byte err:error sizedBinPK:[2592]uint8 binAddress:[20]uint8
+//@   names pk:string |  | binPK:[]byte err:error sizedBinPK:[2592]uint8 binAddress:[20]uint8 | 
 //@   props C16
 //@   ensures[C16] !has0x(pk) && hexOK(pk, 5184) ==> len(result) == 42 && result[0] == 48 && result[1] == 120 && result[2] == spec.hexchar(1) && result[3] == spec.hexchar(0) && forall q :: 0 <= q && q < 19 ==> result[4+2*q] == spec.hexchar(spec.shake(256, spec.unhex(pk, 5184), 2592, 13+q) / 16) && result[5+2*q] == spec.hexchar(spec.shake(256, spec.unhex(pk, 5184), 2592, 13+q) % 16)
 //@   ensures[C16] has0x(pk) && hexOK(pk[2:], 5184) ==> len(result) == 42 && result[0] == 48 && result[1] == 120 && result[2] == spec.hexchar(1) && result[3] == spec.hexchar(0) && forall q :: 0 <= q && q < 19 ==> result[4+2*q] == spec.hexchar(spec.shake(256, spec.unhex(pk[2:], 5184), 2592, 13+q) / 16) && result[5+2*q] == spec.hexchar(spec.shake(256, spec.unhex(pk[2:], 5184), 2592, 13+q) % 16)
 //@   ensures[C16] (!has0x(pk) && notHex(pk)) || (has0x(pk) && notHex(pk[2:])) ==> len(result) == 0
 
 //@ func DilithiumVerify
-//@   names message:[]uint8 signature:string pk:string |  | binSignature:[]byte err:error binPK:[]byte sizedBinPK:[2592]uint8 sizedBinSignature:[4595]uint8
+//@   names message:[]uint8 signature:string pk:string |  | binSignature:[]byte err:error binPK:[]byte sizedBinPK:[2592]uint8 sizedBinSignature:[4595]uint8 | 
 //@   props C16
 //@   ensures[C16] !has0x(signature) && !has0x(pk) && hexOK(signature, 9190) && hexOK(pk, 5184) ==> result == purefn("dilithium.Verify", "r0", message, fixed(unhex(signature)), fixed(unhex(pk)))
 //@   ensures[C16] has0x(signature) && !has0x(pk) && hexOK(signature[2:], 9190) && hexOK(pk, 5184) ==> result == purefn("dilithium.Verify", "r0", message, fixed(unhex(signature[2:])), fixed(unhex(pk)))
